@@ -20,6 +20,7 @@ type vpFollowerScn struct {
 func vpFollowingInstance(H time.Duration, mod func(cfg *ElectionConfig)) *vpFollowerScn {
 	s := &vpFollowerScn{H: H}
 	s.st = vpNewStore("g", 0)
+	s.st.watchStopYield = vpC06StopYield
 	s.st.write("env:other", "create", vpRecMk("other", "tok-other", 0), false, 0)
 	s.kv = vpHandle(s.st, "a")
 	cfg := vpBaseConfig("a", H, 3*H)
@@ -113,6 +114,11 @@ func vpH_C07_T_stale_events() {
 	case 2:
 		w.push(&vpEntry{k: "g", v: nil, rev: oldRev + 1}) // late deletion marker of the previous owner's shutdown
 	}
+	time.Sleep(100 * time.Millisecond)
+	vpQuiesce()
+	if s.e.IsLeader() && s.st.live() && s.st.writer == "a" {
+		vpAssert("C18.leader-snapshot:revision", s.e.Status().Revision == s.st.lastSeq)
+	}
 	time.Sleep(2*H + H/2)
 	vpQuiesce()
 	vpCover("C07.stale")
@@ -120,5 +126,4 @@ func vpH_C07_T_stale_events() {
 	vpAssert("C07.no-demote-callback", s.cb.demotes == 0)
 	vpAssert("C07.token-stable", s.e.Token() == tok)
 	vpAssert("C07.owner-stable", s.st.live() && vpRecID(s.st.val) == "a" && vpRecTok(s.st.val) == tok)
-	vpAssert("C18.leader-snapshot:revision", s.e.Status().Revision == s.st.lastSeq)
 }
